@@ -49,6 +49,23 @@ let () =
         spec "c07_bucket_ignores_suits" (bk = o.(1)) (Printf.sprintf "permutation %d" k)
       | _ -> ()) (split ',' o.(2));
     !fails end);
+  (* the bucket of the equity w / n, for every w <= n: round(100 * equity) in binary32, ties away from zero *)
+  register "qt" (fun i o ->
+    if o.(0) = "P" then [Specfail ("c07_bucket_aborts", i.(1))] else begin
+    let n = int_of_string i.(1) in
+    let fails = ref [] in
+    Stdlib.List.iteri (fun w b ->
+      if Stdlib.List.length !fails < 4 then begin
+        let want = bucket_code (bucket_index (equity_f32 (w, n))) in
+        if string_of_n want <> b then begin
+          fails := Mismatch (Printf.sprintf "bucket of %d/%d" w n) :: !fails;
+          (* the statement: the percent bucket is the equity rounded to the nearest percent (exact halves up) *)
+          let exact = (200 * w + n) / (2 * n) in
+          if string_of_n (bucket_code exact) <> b then
+            fails := Specfail ("c07_bucket_is_rounded_percent", Printf.sprintf "equity %d/%d belongs to bucket %d, the implementation says %s" w n exact b) :: !fails
+        end
+      end) (split ',' o.(0));
+    !fails end);
   register "hist" (fun i o ->
     if o.(0) = "P" then [Specfail ("c07_histogram_aborts", "")] else begin
     let d = deck () in
